@@ -17,6 +17,8 @@ Fault injection uses public extension points only:
     StreamProtocol (recv) and BufferedStreamProtocol (recv_into) servers; for UDP a malformed datagram, alone or sent
     back-to-back behind a valid one
 
+`case["eager"]`: the same server life on a loop whose task factory is asyncio.eager_task_factory.
+
 Observations are behaviour only (no wall-clock in the output).  Every wait has a generous bound; a bound that expires while
 the server is still alive makes the whole case be retried once with 4x longer bounds (2 s, then 8 s) before the timeout is reported as an
 observation.
@@ -1127,6 +1129,10 @@ def _run_once(case: dict, scale: float) -> tuple[list[str], Plan]:
     loop.fault_raised = False  # type: ignore[attr-defined]
     loop.setup_fault.clear()
     asyncio.set_event_loop(loop)
+    # `eager`: the event loop creates its tasks with asyncio.eager_task_factory (a configuration the servers support
+    # explicitly): the first step of every new task — a per-datagram handler task, a re-spawned client coroutine, an accepted
+    # connection's task — runs synchronously inside start_soon() / create_task()
+    loop.set_task_factory(asyncio.eager_task_factory if case.get("eager") else None)
     plan = Plan(case, scale)
     cap = Capture()
     loggers = [logging.getLogger("c17.server"), logging.getLogger("easynetwork")]
@@ -1177,6 +1183,7 @@ def _run_once(case: dict, scale: float) -> tuple[list[str], Plan]:
             lg.handlers[:] = hs
             lg.setLevel(lvl)
             lg.propagate = prop
+        loop.set_task_factory(None)
     out = list(cap.lines) + lines
     f_events = [e[2:] for e in plan.events if e.startswith("F ")]
     out.append("hooks " + (" ".join(x.replace(" ", "_") for x in f_events) if f_events else "-"))
